@@ -160,6 +160,9 @@ def run(pid, tier, seed, assumptions, rule):
             mc_info.append(dict(run=m["tag"], distinct=r.distinct, generated=r.generated, depth=r.depth,
                                 expect=m.get("expect", "pass"), errors=r.errors[:1], wall_s=round(r.wall, 1),
                                 actions_taken={a: v[1] for a, v in r.coverage.items() if a != "Init"}))
+        # unbounded sizes: the schedule / capacity arithmetic of one axis by an inductive invariant (Apalache)
+        n_apa = core.run_apalache("ScheduleInd", [("Init=>IndInv", "Init", "IndInv", 0), ("IndInv inductive", "IndInit", "IndInv", 1),
+                                                  ("IndInv=>OnSchedule/WithinStore", "IndInit", "Claims", 0)], sc) if pid == "C16" else 0
         from .. import repotrace
         fut = repotrace.start(tier, rar=True)
         cfgs = cases(tier, seed)
@@ -217,7 +220,7 @@ def run(pid, tier, seed, assumptions, rule):
             trace_events=sum(len(t["ev"]) for t in live), refinement_steps_observed=steps_seen, traces_reaching_capacity=full_seen,
             traces_through_solve=sum(1 for t in live if t["cfg"].get("mode") == "solve"), traces_rejected=len(rej),
             traces_from_repo_tests=sum(1 for t in live if t["cfg"].get("src") == "repo_tests"), repo_tests_pytest=repo_line,
-            known_finding_hits=n_known, binding_selftests_rejected=nself, rule=rule)
+            known_finding_hits=n_known, binding_selftests_rejected=nself, apalache_inductive_obligations_discharged=n_apa, rule=rule)
         core.write_evidence(pid, tier, seed, "model_checking", cov, assumptions, time.time() - t0, n_new)
         print(f"{pid} [{tier}] MC states={states} traces={len(live)} accepted={acc} rejected={len(rej)} (new={n_new} known={n_known}) "
               f"steps={steps_seen} full={full_seen} wall={time.time() - t0:.0f}s")
